@@ -30,7 +30,7 @@ Sender side.  `sendConstructed`: `BasicDBusProtocol.sendMessage(msg)` for a mess
 (`oobAfter`); one `sendFileDescriptor` per entry, then the `write`.
 Core Lean only.
 -/
-namespace Txdbus.Proto
+namespace Txdbus.Proto.FdsE2E
 
 /-! ## The positions of `h` in a decoded body -/
 
@@ -179,4 +179,4 @@ def sendConstructed (oob : Option (List PyVal)) : Option (List SendEv) :=
   | some ds => some (ds.map SendEv.sendFd ++ [SendEv.write])
   | none => none
 
-end Txdbus.Proto
+end Txdbus.Proto.FdsE2E
